@@ -102,7 +102,7 @@ Definition run_rules (ts : list bytes) : bytes :=
   match parse_vnode ts with
   | Some (root, rest) =>
     match parse_vtypes (S (length rest)) rest with
-    | Some d => if check_project 1000 d root then B"ok" else B"value"
+    | Some d => if check_project (proj_fuel d root) d root then B"ok" else B"value"
     | None => bad_case
     end
   | None => bad_case
